@@ -52,6 +52,19 @@ class Spec1D:
                 vals[i] = dB(kder, self.order, i)
         return vals, absv
 
+    def underflow_amp(self, x, kder):
+        """how much an absolute error of one subnormal ulp made INSIDE the recurrence can grow before it reaches the
+        basis values: every later round multiplies by a weight |x - t|/(t' - t) and every derivative round by
+        order/(t' - t); deliberately generous (it only scales the 2^-149 / 2^-1074 floor)."""
+        x = Fraction(x)
+        diffs = [b - a for a, b in zip(self.k, self.k[1:]) if b > a]
+        if not diffs:
+            return Fraction(1)
+        md = min(diffs)
+        reach = max(abs(x - self.k[0]), abs(self.k[-1] - x))
+        w = max(Fraction(1), reach / md)
+        return (2 * w) ** self.order * (max(Fraction(1), 2 * self.order / md)) ** kder
+
 class PointSpec:
     """per-dimension bases at one point, cached by derivative order, so that many k-vectors share them"""
     def __init__(self, orders, knots, coefs, xs):
@@ -68,9 +81,10 @@ class PointSpec:
         per = [self.basis(d, ks[d]) for d in range(self.nd)]
         val, ab = _contract(self.nd, self.naxes, self.coefs, per)
         nterms, amp = 1, Fraction(1)
-        for vals, absv in per:
+        for d, (vals, absv) in enumerate(per):
             nterms *= max(1, len(absv))
             amp *= max(Fraction(1), sum(absv.values(), Fraction(0)))
+            amp *= Spec1D(self.knots[d], self.orders[d], self.naxes[d]).underflow_amp(self.xs[d], ks[d])
         return val, ab, nterms * self.cmax * amp
 
 def spline_spec(orders, knots, coefs, xs, ks):
